@@ -64,7 +64,7 @@ def walk(subdir, module, cfg, tag, timeout=600):
 
 
 TOPLINK_CFG = vlib.cfg_text("Spec", dict(
-    N=2, Tick=2, GMin=0, GMax=1, LatChoices={3}, MaxChoices=set(), Offsets={0}, RandomOrder=True,
+    N=2, Tick=2, GMin=0, GMax=1, LatChoices={3}, MaxChoices=set(), Offsets={0}, RandomOrder=True, Kinds={"dgram", "probe"},
     CtlOps={"partition_oneway", "repair", "hold", "release"}, HostCtlOps={"release"}, AllowManual=True,
     FailModes={True}, MaxMsgs=2, MaxSteps=2, MaxCtl=1, MaxLatCtl=1, RegOrder=vlib.Raw("<- Reg21")))
 
